@@ -40,6 +40,7 @@ CHECKS["C02"] = {
             "Sampled: rapid-drawn n<=200, order kinds random/reverse/nearly-sorted/rotate, sizes 1..40000, base seq in {0,2^32-n/2,2^63-n/2,2^64-n,...}. Non-trivial = arrival order differs from sequence order; distinct = distinct permutations (exhaustive) / distinct scenarios (sampled). Sampled also draws the reader's buffer sizes (64 KiB, exactly half or all of what is readable, 1/100/4096/200000 bytes).",
     "assumptions": ["each frame is delivered exactly once", "the stream-closing frame carries the highest sequence number of its stream"],
     "jobs": [
+        {"pkg": MUX, "run": "^TestVerif_C02_StalledReader$", "checks": {"quick": 10, "thorough": 300}, "shards": {"thorough": 8}, "timeout": {"quick": 600}},
         {"pkg": MUX, "run": "^TestVerif_C02_Exhaustive$"},
         {"pkg": MUX, "run": "^TestVerif_C02_Sampled$", "checks": {"quick": 5000, "thorough": 1000000}, "shards": {"thorough": 16}},
         {"pkg": MUX, "run": "^TestVerif_C02_Concurrent$", "realtime": True, "checks": {"quick": 300, "thorough": 30000}, "shards": {"thorough": 8}},
